@@ -99,6 +99,47 @@ class _c02b_driver:
         ddcommon.build_dd = self.orig
 
 
+def wide_case(cid, kind, rng):
+    """65..200 variables (eval packs the assignment into machine words; value tables stop at 7 variables): the driver
+    follows every handle as the specification function of the expression that built it and compares eval under
+    sampled assignments (no snapshots)"""
+    nv = rng.choice([33, 63, 64, 65, 66, 100, 127, 128, 129, 200])
+    ops = [f"VARS {nv}"]
+    if rng.random() < 0.5:
+        o = list(range(nv)); rng.shuffle(o)
+        ops.append("ORDER " + " ".join(map(str, o)))
+    slots = []
+    nxt = 0
+    for v in sorted(set([0, nv - 1, 31, 32, 63 % nv, 64 % nv] + [rng.randrange(nv) for _ in range(8)])):
+        ops.append(f"{rng.choice(['VAR', 'VAR', 'NVAR'])} h{nxt} {v}"); slots.append(nxt); nxt += 1
+
+    def asg():
+        p = rng.choice([0.1, 0.5, 0.9])
+        return "".join("1" if rng.random() < p else "0" for _ in range(nv))
+    for h in slots:
+        for _ in range(2):
+            ops.append(f"EVALA h{h} {asg()}")
+    for _ in range(rng.randrange(10, 30)):
+        r = rng.random()
+        pick = lambda: rng.choice(slots)
+        if r < 0.12:
+            ops.append(f"{rng.choice(['NOT', 'NOTO'])} h{nxt} h{pick()}")
+        elif r < 0.25:
+            ops.append(f"ITE h{nxt} h{pick()} h{pick()} h{pick()}")
+        elif r < 0.33 and nv <= 62:
+            pos = rng.randrange(1 << nv) & rng.randrange(1 << nv) & rng.randrange(1 << nv)
+            neg = rng.randrange(1 << nv) & rng.randrange(1 << nv) & rng.randrange(1 << nv) & ~pos
+            ops.append(f"RESTRICT h{nxt} h{pick()} {pos} {neg}")
+        else:
+            ops.append(f"{rng.choice(ddgen.BIN_OPS)} h{nxt} h{pick()} h{pick()}")
+        slots.append(nxt); nxt += 1
+        for _ in range(4):
+            ops.append(f"EVALA h{nxt - 1} {asg()}")
+        if rng.random() < 0.1:
+            ops.append("GC")
+    return (ddgen.header(cid, kind, cache=rng.choice([16, 4096])) + " wide=1", ops)
+
+
 def gen_cases(ctx):
     rng = random.Random(ctx.seed * 7919 + 2)
     cases = []
@@ -119,6 +160,8 @@ def gen_cases(ctx):
         for _ in range(200 if thorough else 24):
             cases.append(ddgen.case_history(f"h{cid}", kind, rng, nv=rng.randrange(4, 8), length=50,
                                             reorder=False, quant=False, threads=rng.choice([1, 1, 2, 8]))); cid += 1
+        for _ in range(120 if thorough else 16):
+            cases.append(wide_case(f"w{cid}", kind, rng)); cid += 1
     return cases
 
 
@@ -126,19 +169,19 @@ def run(ctx):
     cases = gen_cases(ctx)
     # pass 1 (proof gate + BCDD model replay): the BCDD cases through the extracted model of
     # coq/DD/ApplyBcdd.v; violations are reported here, the evidence is written by pass 2
-    bcdd = [c for c in cases if " kind=bcdd " in c[0] + " "]
+    bcdd = [c for c in cases if " kind=bcdd " in c[0] + " " and "wide=1" not in c[0]]
     with _c02b_driver():
         ok_b, bad_b = ddcommon.run_dd(ctx, ["C02"], bcdd, rule="", allowed_axioms=ALLOWED_AXIOMS, drv_args=["--c02b"],
                                       write_ev=False, debug_cases=None, sig_extra="bcdd-model")
     # pass 1z (ZBDD model replay): the ZBDD cases through the extracted model of coq/DD/ZbddBool.v
-    zbdd = [c for c in cases if " kind=zbdd " in c[0] + " "]
+    zbdd = [c for c in cases if " kind=zbdd " in c[0] + " " and "wide=1" not in c[0]]
     with _c02z_driver():
         ok_z, bad_z = ddcommon.run_dd(ctx, ["C02"], zbdd, rule="", allowed_axioms=ALLOWED_AXIOMS, drv_args=["--c02z"],
                                       proofs=False, write_ev=False, debug_cases=None, sig_extra="zbdd-model")
     # pass 1s (plain BDD, edge level): every operation of the bdd cases replayed by the extracted model of
     # coq/DD/Apply.v (direct-mapped cache model) on the snapshot BEFORE the operation: same result edge, the
     # same new nodes, no node of the pre-state changed (theorems C02_bdd_edge_*)
-    bdd = [c for c in cases if " kind=bdd " in c[0] + " "]
+    bdd = [c for c in cases if " kind=bdd " in c[0] + " " and "wide=1" not in c[0]]
     with _c02s_driver():
         ok_s, bad_s = ddcommon.run_dd(ctx, ["C02"], bdd, rule="", allowed_axioms=ALLOWED_AXIOMS, drv_args=["--c02s"],
                                       proofs=False, write_ev=False, debug_cases=None, sig_extra="bdd-edge")
@@ -147,7 +190,7 @@ def run(ctx):
         extra_cov={"bcdd_model_cases_ok": ok_b, "bcdd_model_cases_bad": len(bad_b),
                    "zbdd_model_cases_ok": ok_z, "zbdd_model_cases_bad": len(bad_z),
                    "bdd_edge_cases_ok": ok_s, "bdd_edge_cases_bad": len(bad_s)},
-        rule="per kind (bdd, bcdd, zbdd): all 65536 ordered pairs of the 256 three-variable functions for each of the 8 binary operators, not/eval/node_count/cofactors of all 256, sampled ite triples, constants and (negated) variables, under one seed-chosen order (quick) or all 6 (thorough); sampled pairs with 2 and 8 worker threads; random histories over 4..7 variables; the bcdd cases are additionally replayed operation by operation on the extracted BCDD apply model (correspondence_stats c02b_*), the zbdd cases on the extracted ZBDD model (c02z_*), the bdd cases at edge level on the pre-state snapshot by the extracted plain-BDD model (c02s_*: same edge, same new nodes, frame). non-trivial = case with >= 3 ops; distinct = distinct (header, op list)",
+        rule="per kind (bdd, bcdd, zbdd): all 65536 ordered pairs of the 256 three-variable functions for each of the 8 binary operators, not/eval/node_count/cofactors of all 256, sampled ite triples, constants and (negated) variables, under one seed-chosen order (quick) or all 6 (thorough); sampled pairs with 2 and 8 worker threads; random histories over 4..7 variables; wide cases with 33..200 variables (optional reordering; every handle followed as the specification function of its building expression, eval under sampled assignments); the bcdd cases are additionally replayed operation by operation on the extracted BCDD apply model (correspondence_stats c02b_*), the zbdd cases on the extracted ZBDD model (c02z_*), the bdd cases at edge level on the pre-state snapshot by the extracted plain-BDD model (c02s_*: same edge, same new nodes, frame). non-trivial = case with >= 3 ops; distinct = distinct (header, op list)",
         allowed_axioms=ALLOWED_AXIOMS)
 
 
